@@ -19,6 +19,7 @@ import (
 	"math/big"
 	"os"
 	"path/filepath"
+	"runtime/pprof"
 	"sort"
 	"strings"
 	"sync"
@@ -163,6 +164,7 @@ type params struct {
 	Restarts int
 	Fork     *forkSpec
 	Det      string // ideal | tracked
+	Bound    int    // deviation bound of the DFS for this unit (-1: unbounded)
 }
 
 func (p params) String() string {
@@ -173,18 +175,51 @@ func (p params) String() string {
 	return s + fmt.Sprintf(" restarts<=%d", p.Restarts)
 }
 
-type tierCfg struct {
-	plainN, plainRestarts   int // family A: no reorg
-	plainN2, plainRestarts2 int // family A': longer histories with a smaller restart budget
-	forkN, forkRestarts     int // family B: one reorg
-	detectors               []string
+// class is one family of units: histories of exactly N blocks in one mode, with a restart budget, with or
+// without one reorg, and the deviation bound of the DFS (-1 = the whole choice tree).
+type class struct {
+	Mode     string
+	N        int
+	Restarts int
+	Fork     bool
+	Dets     []string
+	Bound    int
 }
 
-func cfg(tier string) tierCfg {
-	if tier == "thorough" {
-		return tierCfg{plainN: 4, plainRestarts: 2, plainN2: 6, plainRestarts2: 1, forkN: 4, forkRestarts: 1, detectors: []string{"ideal", "tracked"}}
+var both = []string{"ideal", "tracked"}
+
+func classes(tier string) []class {
+	var cs []class
+	for _, mode := range []string{"PP", "FEP"} {
+		if tier == "thorough" {
+			for n := 1; n <= 4; n++ {
+				cs = append(cs, class{mode, n, 2, false, nil, -1})
+			}
+			cs = append(cs, class{mode, 5, 1, false, nil, -1})
+			cs = append(cs, class{mode, 6, 0, false, nil, -1}) // every polling cadence, no restart
+			for n := 1; n <= 2; n++ {
+				cs = append(cs, class{mode, n, 1, true, both, -1})
+			}
+			if mode == "PP" {
+				cs = append(cs, class{mode, 3, 0, true, both, -1})
+			} else {
+				cs = append(cs, class{mode, 3, 0, true, both[:1], 2}) // deviation-bounded
+			}
+			continue
+		}
+		for n := 1; n <= 3; n++ {
+			cs = append(cs, class{mode, n, 2, false, nil, -1})
+		}
+		cs = append(cs, class{mode, 4, 1, false, nil, -1})
+		dets := both
+		if mode == "FEP" {
+			dets = both[:1]
+		}
+		for n := 1; n <= 2; n++ {
+			cs = append(cs, class{mode, n, 0, true, dets, -1})
+		}
 	}
-	return tierCfg{plainN: 3, plainRestarts: 2, plainN2: 4, plainRestarts2: 1, forkN: 3, forkRestarts: 0, detectors: []string{"ideal", "tracked"}}
+	return cs
 }
 
 func kindsOf(mode string) []string {
@@ -195,7 +230,6 @@ func kindsOf(mode string) []string {
 }
 
 func units(tier string) []mc.Unit {
-	t := cfg(tier)
 	var us []mc.Unit
 	add := func(p params) {
 		name := fmt.Sprintf("%s|%s|R%d", p.Mode, evs(p.Hist), p.Restarts)
@@ -204,29 +238,29 @@ func units(tier string) []mc.Unit {
 		}
 		us = append(us, mc.Unit{Name: name, Params: p})
 	}
-	for _, mode := range []string{"PP", "FEP"} {
-		for _, h := range extensions(map[int]bool{}, kindsOf(mode), t.plainN2, false) {
-			r := t.plainRestarts2
-			if len(h) <= t.plainN {
-				r = t.plainRestarts
+	for _, cl := range classes(tier) {
+		for _, h := range extensions(map[int]bool{}, kindsOf(cl.Mode), cl.N, true) {
+			if !cl.Fork {
+				add(params{Mode: cl.Mode, Hist: h, Restarts: cl.Restarts, Bound: cl.Bound})
+				continue
 			}
-			add(params{Mode: mode, Hist: h, Restarts: r})
-		}
-		for _, h := range extensions(map[int]bool{}, kindsOf(mode), t.forkN, false) {
-			n := uint64(len(h))
-			for f := uint64(1); f <= n; f++ {
+			for f := uint64(1); f <= uint64(cl.N); f++ {
 				pr := map[int]bool{}
 				for _, e := range h[:f-1] {
 					pr = apply(pr, e)
 				}
-				for _, nb := range extensions(pr, kindsOf(mode), int(n-f+1), true) {
-					for _, det := range t.detectors {
-						add(params{Mode: mode, Hist: h, Restarts: t.forkRestarts, Fork: &forkSpec{From: f, Blocks: nb}, Det: det})
+				for _, nb := range extensions(pr, kindsOf(cl.Mode), cl.N-int(f)+1, true) {
+					for _, det := range cl.Dets {
+						add(params{Mode: cl.Mode, Hist: h, Restarts: cl.Restarts, Fork: &forkSpec{From: f, Blocks: nb}, Det: det, Bound: cl.Bound})
 					}
 				}
 			}
 		}
 	}
+	// shortest histories first: the first violations a worker records are then the smallest ones
+	sort.SliceStable(us, func(i, j int) bool {
+		return len(us[i].Params.(params).Hist) < len(us[j].Params.(params).Hist)
+	})
 	return us
 }
 
@@ -387,6 +421,10 @@ type world struct {
 	steps          int
 	stopFailed     bool
 	panicked       any
+	spareReq       chan struct{}
+	recordedBefore int // FEP: greatest index answered 'injected' in earlier rounds of this download
+	recordedNow    int
+	spareRes       chan error
 }
 
 var scratchSeq atomic.Int64
@@ -401,6 +439,30 @@ func scratchDir() string {
 		panic(err)
 	}
 	return d
+}
+
+var tmpl []byte
+
+// templateDB returns the bytes of an empty store file on which the real constructor has run its migrations.
+func templateDB() []byte {
+	if tmpl != nil {
+		return tmpl
+	}
+	dir := scratchDir()
+	defer os.RemoveAll(dir)
+	s, err := lastgersync.NewVerifLastGERSync(filepath.Join(dir, "t.sqlite"))
+	if err != nil {
+		panic(err)
+	}
+	out := filepath.Join(dir, "template.sqlite")
+	if _, err := s.VerifDB().Exec("VACUUM INTO '" + out + "'"); err != nil {
+		panic(err)
+	}
+	s.VerifDB().Close()
+	if tmpl, err = os.ReadFile(out); err != nil {
+		panic(err)
+	}
+	return tmpl
 }
 
 func run(c *mc.Ctx, u mc.Unit) {
@@ -422,25 +484,45 @@ func run(c *mc.Ctx, u mc.Unit) {
 	dir := scratchDir()
 	dbPath := filepath.Join(dir, "lastgersync.sqlite")
 	defer os.RemoveAll(dir)
+	if err := os.WriteFile(dbPath, templateDB(), 0o644); err != nil { // a migrated, empty store (saves re-running the migrations)
+		panic(err)
+	}
 	mode := lastgersync.PP
 	if p.Mode == "FEP" {
 		mode = lastgersync.FEP
 	}
-	// constraint (1)+(3): every store is opened OUTSIDE the bubble; spares = restart budget
-	for i := 0; i <= p.Restarts; i++ {
-		inst, err := lastgersync.New(context.Background(), dbPath, w.det, client, gerAddr, l1,
+	// constraints (1)+(3): every store is opened OUTSIDE the bubble. The first node object is built here;
+	// the spares used by restarts are built on demand by a goroutine that was started outside the bubble
+	// (so database/sql's goroutines never belong to the bubble); at most p.Restarts of them.
+	mk := func() (*lastgersync.LastGERSync, error) {
+		return lastgersync.New(context.Background(), dbPath, w.det, client, gerAddr, l1,
 			time.Millisecond, -1, aggkittypes.LatestBlock, time.Millisecond, 100, true, mode)
-		if err != nil {
-			c.Failf("harness/constructor", "lastgersync.New: %v", err)
-			return
-		}
-		w.insts = append(w.insts, inst)
-		defer inst.VerifDB().Close()
 	}
-	if w.det.badID != "" || len(w.det.subs) != len(w.insts) {
-		c.Failf("harness/subscribe", "unexpected subscriptions: id %q, %d subscriptions for %d instances", w.det.badID, len(w.det.subs), len(w.insts))
+	inst, err := mk()
+	if err != nil {
+		c.Failf("harness/constructor", "lastgersync.New: %v", err)
 		return
 	}
+	w.insts = append(w.insts, inst)
+	w.spareReq, w.spareRes = make(chan struct{}), make(chan error)
+	factoryDone := make(chan struct{})
+	go func() {
+		defer close(factoryDone)
+		for range w.spareReq {
+			inst, err := mk()
+			if err == nil {
+				w.insts = append(w.insts, inst)
+			}
+			w.spareRes <- err
+		}
+	}()
+	defer func() {
+		close(w.spareReq)
+		<-factoryDone
+		for _, inst := range w.insts {
+			inst.VerifDB().Close()
+		}
+	}()
 	func() {
 		defer func() {
 			if x := recover(); x != nil { // synctest reports a bubble that cannot finish by panicking here
@@ -504,15 +586,33 @@ func (w *world) startLife(i int) {
 	ctx, cancel := context.WithCancel(context.Background())
 	w.cancel = cancel
 	w.done = make(chan struct{})
-	w.lifeStart = w.lpb() + 1
-	w.startBlocks[w.lifeStart] = true
-	w.firstPoll = true
-	w.epoch++
+	w.newDownload()
 	done, inst := w.done, w.cur
 	go func() {
 		defer close(done)
 		_ = inst.Start(ctx)
 	}()
+}
+
+// newDownload: the driver (re)starts the downloader at lastProcessed+1; whatever was served above the
+// last processed block to an earlier download is lost and has to be fetched again.
+func (w *world) newDownload() {
+	w.recordedBefore, w.recordedNow = -1, -1
+	lpb := w.lpb()
+	w.lifeStart = lpb + 1
+	w.startBlocks[w.lifeStart] = true
+	w.firstPoll = true
+	w.epoch++
+	for b := range w.fetched {
+		if b > lpb {
+			delete(w.fetched, b)
+		}
+	}
+	for b := range w.examined {
+		if b > lpb {
+			delete(w.examined, b)
+		}
+	}
 }
 
 // stopLife cancels the node's context and lets every goroutine of this life exit.
@@ -546,6 +646,12 @@ func (w *world) restart() bool {
 	w.tr("restart")
 	w.c.Witness("restarts")
 	if !w.stopLife() {
+		return false
+	}
+	w.spareReq <- struct{}{} // channels made outside the bubble: the spare is constructed outside it
+	if err := <-w.spareRes; err != nil {
+		w.c.Failf("harness/constructor", "lastgersync.New (spare): %v", err)
+		w.stopFailed = true // nothing is running
 		return false
 	}
 	w.startLife(w.life + 1)
@@ -700,10 +806,7 @@ func (w *world) doNotify(g *act.Gate) {
 	}
 	w.det.mu.Unlock()
 	w.notified = true
-	w.epoch++
-	w.firstPoll = true
-	w.lifeStart = w.lpb() + 1
-	w.startBlocks[w.lifeStart] = true
+	w.newDownload()
 	// let the cancelled downloader run out (FEP: its eth_calls carry no context, they are answered)
 	w.sched.Release(g, act.Directive{})
 	for i := 0; i < 100; i++ {
@@ -737,6 +840,17 @@ func (w *world) book(g *act.Gate) {
 	case "CallContract":
 		w.examined[w.chain.Visible] = w.chain.Hash(w.chain.Visible)
 		w.c.Witness("eth_calls")
+		// not a property clause, only an observation: the FEP downloader means to continue after the index
+		// it has just recorded ("nextL1InfoTreeIndex = e.L1InfoTreeIndex + 1"), but asks again from the old one
+		if call, ok := g.Info.(ethereum.CallMsg); ok && len(call.Data) == 36 {
+			i, known := indexOfGER[common.BytesToHash(call.Data[4:])]
+			if known && i <= w.recordedBefore {
+				w.c.Witness("fep_eth_calls_for_an_index_at_or_below_the_one_recorded_by_an_earlier_round")
+			}
+			if _, in := w.present(w.chain.Visible)[i]; known && in && i > w.recordedNow {
+				w.recordedNow = i
+			}
+		}
 	}
 }
 
@@ -747,7 +861,10 @@ func (w *world) l2Gate(g *act.Gate) (stop bool) {
 	}
 	if isWait && w.firstPoll {
 		w.firstPoll = false
-		if adv := w.c.Choose(int(w.n-w.chain.Visible)+1, "tip-advance-before-first-poll-of-download"); adv > 0 {
+		// the very first download sees the tip at 0 and waits: seeing k blocks at its first or at its second
+		// poll is the same observation; after a restart or a reorg the first poll matters (lastProcessed+1 vs tip)
+		if w.life == 0 && !w.notified {
+		} else if adv := w.c.Choose(int(w.n-w.chain.Visible)+1, "tip-advance-before-first-poll-of-download"); adv > 0 {
 			w.chain.Visible += uint64(adv)
 			w.epoch++
 			w.c.Witness("tip_advances")
@@ -762,6 +879,7 @@ func (w *world) l2Gate(g *act.Gate) (stop bool) {
 	}
 	if isWait {
 		w.tr("poll→%d", w.chain.Visible)
+		w.recordedBefore = w.recordedNow // a new round of eth_calls starts after this poll
 	}
 	w.book(g)
 	w.release(g, isWait)
@@ -806,6 +924,7 @@ func (w *world) quiescent(g *act.Gate) (stop bool) {
 			w.c.Witness("tip_advances_by_more_than_one")
 		}
 		w.tr("poll→%d", w.chain.Visible)
+		w.recordedBefore = w.recordedNow
 		w.release(g, true)
 	case "end":
 		return true
@@ -959,11 +1078,23 @@ func (w *world) fail(key, format string, a ...any) {
 // ---------------------------------------------------------------------------------------------
 
 func main() {
+	if f := os.Getenv("C16_PROF"); f != "" {
+		fh, _ := os.Create(f)
+		pprof.StartCPUProfile(fh)
+		defer pprof.StopCPUProfile()
+	}
+	if t := os.Getenv("C16_LIST"); t != "" { // development aid: list the units of a tier
+		for i, u := range units(t) {
+			fmt.Println(i, u.Name)
+		}
+		return
+	}
 	mc.Main(mc.Spec{
 		ID: "C16", Level: "model_checking",
 		Units:              units,
 		Batch:              func(string) int { return 40 },
 		Run:                run,
+		Bound:              func(_ string, u mc.Unit) int { return u.Params.(params).Bound },
 		Setup:              func(string) { kit.Quiet() },
 		MaxEvalsPerProcess: 1000, // every lastgersync.New leaks ~3 descriptors (RunMigrations keeps a handle)
 		Rule: "unit = (mode PP|FEP, L2 history of GER events, restart budget[, fork point + new fork content + detector model]); choice points at the gates of the real " +
@@ -981,13 +1112,21 @@ func main() {
 			"at most one GER event per L2 block; L1 info tree = fixed list of N+1 leaves; retry limit disabled (production default -1); periods 1 ms of fake time",
 		},
 		Bounds: func(tier string) map[string]any {
-			t := cfg(tier)
-			return map[string]any{
-				"modes": []string{"PP", "FEP"}, "block_kinds_pp": kindsPP, "block_kinds_fep": kindsFEP,
-				"history_blocks_no_reorg": fmt.Sprintf("1..%d with <=%d restarts, %d..%d with <=%d restart(s)", t.plainN, t.plainRestarts, t.plainN+1, t.plainN2, t.plainRestarts2),
-				"history_blocks_reorg":    fmt.Sprintf("1..%d, fork at every block, depth 1..2 at fork time, every new fork content, <=%d restart(s)", t.forkN, t.forkRestarts),
-				"detectors":               t.detectors, "tip_advance": "0..all remaining at the first poll of a download, 1..all remaining at quiescence",
+			var cl []string
+			for _, x := range classes(tier) {
+				d := fmt.Sprintf("%s N=%d restarts<=%d", x.Mode, x.N, x.Restarts)
+				if x.Fork {
+					d += fmt.Sprintf(" + one reorg (fork at every block, depth 1..2 when it happens, every new fork content, detectors %v)", x.Dets)
+				}
+				if x.Bound >= 0 {
+					d += fmt.Sprintf(" [deviation bound %d: at most %d non-default choices per execution]", x.Bound, x.Bound)
+				} else {
+					d += " [whole choice tree]"
+				}
+				cl = append(cl, d)
 			}
+			return map[string]any{"block_kinds_pp": kindsPP, "block_kinds_fep": kindsFEP, "unit_classes": cl,
+				"tip_advance": "0..all remaining at the first poll of a download after a restart/reorg, 1..all remaining at quiescence"}
 		},
 	})
 }
